@@ -14,8 +14,14 @@
                   the frame for the next Read; a frame that does not open under (key d, next
                   reader nonce) is an error and nothing of it is returned;
      attacks      the transport may once tamper with a frame, drop, duplicate, swap adjacent
-                  frames, replay the last delivered frame or reflect a frame into the opposite
-                  direction.
+                  frames, replay the last delivered frame, replay the FIRST delivered frame of the
+                  connection after exactly Far more frames have gone through (Far = 2^8, 2^16,
+                  2^24: a counter that wraps after 1, 2 or 3 bytes would accept it again), or
+                  reflect a frame into the opposite direction.
+   The nonce is a COUNTER THAT NEVER REPEATS within a connection: the k-th frame of a direction is
+   sealed with nonce k and only with nonce k, for every k (no wrap-around; a connection carries far
+   fewer than 2^96 frames), and the reader accepts as its k-th frame only a frame sealed with
+   nonce k.  NonceUnique states this over the frame index.
    Cryptography is symbolic: a frame opens iff it is untampered, was sealed with the key of the
    direction it is read on and carries exactly the nonce the reader expects.  Stream content is
    abstract: byte k of direction d is identified by its offset k, a frame covers
@@ -26,6 +32,8 @@ CONSTANTS WriteSizes,   \* sizes of application writes
           Frame,        \* secureConnFrameSize
           MaxOps,       \* calls + attacks in one run
           MaxAttacks,   \* attacks in one run
+          AttackKinds,  \* enabled attacks: subset of {"tamper","drop","dup","swap","replay","replayfar","reflect"}
+          FarDist,      \* distances (in frames) of the far replay, e.g. {256, 65536}
           RecordHist    \* TRUE in the generator
 
 Dirs == {"ab", "ba"}
@@ -43,9 +51,12 @@ VARIABLES sent,      \* [Dirs -> Nat] bytes written by the application so far
           inorder,   \* [Dirs -> BOOLEAN] every Read so far returned the bytes right after the previous ones
           dead,      \* [Dirs -> BOOLEAN] a Read failed (the peer closes the connection)
           lastf,     \* [Dirs -> frame] last frame opened (what an eavesdropper can replay)
+          firstf,    \* [Dirs -> frame] first frame opened on this connection (recorded by the eavesdropper)
+          opened,    \* [Dirs -> SUBSET Nat] nonces of the frames opened so far, except filler (see ReplayFar)
+          filler,    \* [Dirs -> Nat] frames pumped through by ReplayFar (nonces firstFiller..)
           natt,      \* attacks so far
           nops, hist
-vars == <<sent, wire, wnonce, rnonce, left, loff, rcvd, inorder, dead, lastf, natt, nops, hist>>
+vars == <<sent, wire, wnonce, rnonce, left, loff, rcvd, inorder, dead, lastf, firstf, opened, filler, natt, nops, hist>>
 
 RECURSIVE Frames(_, _, _, _)
 \* SecureAead.Write: frames of one Write(d, n) starting at stream offset off with nonce c
@@ -66,13 +77,14 @@ Init == /\ sent = [d \in Dirs |-> 0] /\ wire = [d \in Dirs |-> <<>>]
         /\ wnonce = [d \in Dirs |-> 0] /\ rnonce = [d \in Dirs |-> 0]
         /\ left = [d \in Dirs |-> 0] /\ loff = [d \in Dirs |-> 0] /\ rcvd = [d \in Dirs |-> 0]
         /\ inorder = [d \in Dirs |-> TRUE] /\ dead = [d \in Dirs |-> FALSE]
-        /\ lastf = [d \in Dirs |-> NoFrame] /\ natt = 0 /\ nops = 0 /\ hist = <<>>
+        /\ lastf = [d \in Dirs |-> NoFrame] /\ firstf = [d \in Dirs |-> NoFrame]
+        /\ opened = [d \in Dirs |-> {}] /\ filler = [d \in Dirs |-> 0] /\ natt = 0 /\ nops = 0 /\ hist = <<>>
 
 Write(d, n) ==
   /\ sent' = [sent EXCEPT ![d] = @ + n]
   /\ wire' = [wire EXCEPT ![d] = @ \o Frames(d, n, sent[d], wnonce[d])]
   /\ wnonce' = [wnonce EXCEPT ![d] = @ + NFrames(n)]
-  /\ UNCHANGED <<rnonce, left, loff, rcvd, inorder, dead, lastf, natt>>
+  /\ UNCHANGED <<rnonce, left, loff, rcvd, inorder, dead, lastf, firstf, opened, filler, natt>>
   /\ Log(Rec("write", d, n, NFrames(n), "", n, sent[d]))
 
 \* a Read that still has bytes of the opened frame
@@ -83,7 +95,7 @@ ReadLeft(d, m) ==
      /\ loff' = [loff EXCEPT ![d] = @ + n]
      /\ rcvd' = [rcvd EXCEPT ![d] = @ + n]
      /\ inorder' = [inorder EXCEPT ![d] = @ /\ loff[d] = rcvd[d]]
-     /\ UNCHANGED <<sent, wire, wnonce, rnonce, dead, lastf, natt>>
+     /\ UNCHANGED <<sent, wire, wnonce, rnonce, dead, lastf, firstf, opened, filler, natt>>
      /\ Log(Rec("read", d, m, 0, "", n, loff[d]))
 
 \* a Read that takes the next frame from the transport and opens it
@@ -99,44 +111,61 @@ ReadFrame(d, m) ==
           /\ rcvd' = [rcvd EXCEPT ![d] = @ + n]
           /\ inorder' = [inorder EXCEPT ![d] = @ /\ f.off = rcvd[d]]
           /\ lastf' = [lastf EXCEPT ![d] = f]
-          /\ UNCHANGED <<sent, wnonce, dead, natt>>
+          /\ firstf' = [firstf EXCEPT ![d] = IF @ = NoFrame THEN f ELSE @]
+          /\ opened' = [opened EXCEPT ![d] = @ \cup {f.nonce}]
+          /\ UNCHANGED <<sent, wnonce, dead, filler, natt>>
           /\ Log(Rec("read", d, m, 1, "", n, f.off))
      ELSE /\ wire' = [wire EXCEPT ![d] = Tail(@)]
           /\ dead' = [dead EXCEPT ![d] = TRUE]
-          /\ UNCHANGED <<sent, wnonce, rnonce, left, loff, rcvd, inorder, lastf, natt>>
+          /\ UNCHANGED <<sent, wnonce, rnonce, left, loff, rcvd, inorder, lastf, firstf, opened, filler, natt>>
           /\ Log(Rec("read", d, m, 1, "", -1, 0))
 
 CanAttack == natt < MaxAttacks
 Attacked(kind, d, i) == /\ natt' = natt + 1
-                        /\ UNCHANGED <<sent, wnonce, rnonce, left, loff, rcvd, inorder, dead, lastf>>
+                        /\ UNCHANGED <<sent, wnonce, rnonce, left, loff, rcvd, inorder, dead, lastf, firstf, opened, filler>>
                         /\ Log(Rec("attack", d, 0, i, kind, 0, 0))
 Without(s, i) == SubSeq(s, 1, i - 1) \o SubSeq(s, i + 1, Len(s))
 InsertAt(s, i, x) == SubSeq(s, 1, i - 1) \o <<x>> \o SubSeq(s, i, Len(s))
 \* part: the length prefix, the ciphertext or the authentication tag of frame i is altered
 Tamper(d, i, part) ==
-  /\ CanAttack /\ i \in 1..Len(wire[d])
+  /\ CanAttack /\ "tamper" \in AttackKinds /\ i \in 1..Len(wire[d])
   /\ wire' = [wire EXCEPT ![d][i].bad = TRUE]
   /\ Attacked(part, d, i)
 Drop(d, i) ==
-  /\ CanAttack /\ i \in 1..Len(wire[d])
+  /\ CanAttack /\ "drop" \in AttackKinds /\ i \in 1..Len(wire[d])
   /\ wire' = [wire EXCEPT ![d] = Without(@, i)]
   /\ Attacked("drop", d, i)
 Dup(d, i) ==
-  /\ CanAttack /\ i \in 1..Len(wire[d])
+  /\ CanAttack /\ "dup" \in AttackKinds /\ i \in 1..Len(wire[d])
   /\ wire' = [wire EXCEPT ![d] = InsertAt(@, i, @[i])]
   /\ Attacked("dup", d, i)
 Swap(d, i) ==
-  /\ CanAttack /\ i \in 1..(Len(wire[d]) - 1)
+  /\ CanAttack /\ "swap" \in AttackKinds /\ i \in 1..(Len(wire[d]) - 1)
   /\ wire' = [wire EXCEPT ![d] = [@ EXCEPT ![i] = wire[d][i + 1], ![i + 1] = wire[d][i]]]
   /\ Attacked("swap", d, i)
 \* the last frame the reader accepted is injected again in front of everything else
 Replay(d) ==
-  /\ CanAttack /\ lastf[d] # NoFrame
+  /\ CanAttack /\ "replay" \in AttackKinds /\ lastf[d] # NoFrame
   /\ wire' = [wire EXCEPT ![d] = <<lastf[d]>> \o @]
   /\ Attacked("replay", d, 0)
+\* The eavesdropper recorded the first frame of the connection (nonce n0).  Honest traffic goes on --
+\* n one-byte writes, each read at once, both ends stay in step -- until the reader expects exactly
+\* nonce n0 + far; then the recorded frame is injected.  A counter that never repeats refuses it.
+ReplayFar(d, far) ==
+  /\ CanAttack /\ "replayfar" \in AttackKinds /\ ~dead[d]
+  /\ firstf[d] # NoFrame /\ wire[d] = <<>> /\ left[d] = 0
+  /\ LET n == far - (rnonce[d] - firstf[d].nonce) IN
+     /\ n >= 0
+     /\ sent' = [sent EXCEPT ![d] = @ + n] /\ rcvd' = [rcvd EXCEPT ![d] = @ + n]
+     /\ wnonce' = [wnonce EXCEPT ![d] = @ + n] /\ rnonce' = [rnonce EXCEPT ![d] = @ + n]
+     /\ filler' = [filler EXCEPT ![d] = @ + n]
+     /\ wire' = [wire EXCEPT ![d] = <<firstf[d]>>]
+     /\ natt' = natt + 1
+     /\ UNCHANGED <<left, loff, inorder, dead, lastf, firstf, opened>>
+     /\ Log(Rec("attack", d, n, far, "replayfar", 0, sent[d]))
 \* frame i travelling in direction d is copied to the front of the opposite direction
 Reflect(d, i) ==
-  /\ CanAttack /\ i \in 1..Len(wire[d])
+  /\ CanAttack /\ "reflect" \in AttackKinds /\ i \in 1..Len(wire[d])
   /\ wire' = [wire EXCEPT ![Other(d)] = <<wire[d][i]>> \o @]
   /\ Attacked("reflect", d, i)
 
@@ -150,6 +179,7 @@ Next == \/ \E d \in Dirs, n \in WriteSizes : Can /\ Write(d, n)
         \/ \E d \in Dirs, i \in 1..MaxFr : Can /\ Dup(d, i)
         \/ \E d \in Dirs, i \in 1..MaxFr : Can /\ Swap(d, i)
         \/ \E d \in Dirs : Can /\ Replay(d)
+        \/ \E d \in Dirs, far \in FarDist : Can /\ ReplayFar(d, far)
         \/ \E d \in Dirs, i \in 1..MaxFr : Can /\ Reflect(d, i)
 Spec == Init /\ [][Next]_vars
 
@@ -166,6 +196,17 @@ NothingLost == \A d \in Dirs : (natt = 0 /\ wire[d] = <<>> /\ left[d] = 0) => (r
 NoSpuriousError == natt = 0 => \A d \in Dirs : ~dead[d]
 \* after a failed read nothing more is delivered in that direction
 DeadStays == [][\A d \in Dirs : dead[d] => (dead'[d] /\ rcvd'[d] = rcvd[d])]_vars
+\* the nonce is a counter that never repeats: the reader has opened exactly one frame per frame
+\* index 0..rnonce-1 (filler frames included), no index twice, whatever the distance; and the frames
+\* in transit that were sealed by the writer carry pairwise different nonces below the writer's counter
+NonceUnique ==
+  \A d \in Dirs :
+     /\ Cardinality(opened[d]) + filler[d] = rnonce[d]
+     /\ \A k \in opened[d] : k < rnonce[d]
+     /\ \A i \in 1..Len(wire[d]) : wire[d][i].key = d => wire[d][i].nonce < wnonce[d]
+\* a frame is never accepted twice: the recorded first frame does not open again at any distance
+NoReplayAccepted ==
+  \A d \in Dirs : (firstf[d] # NoFrame /\ wire[d] # <<>> /\ Head(wire[d]) = firstf[d]) => ~Opens(d, Head(wire[d]))
 \* the two directions never share key material: a frame sealed for one direction never opens in the other
 KeySeparation == \A d \in Dirs : lastf[d] # NoFrame => lastf[d].key = d
 =============================================================================
